@@ -808,6 +808,8 @@ CFG = {
     'nest3': {'name': 'nest3', 'constructs': ['switch', 'oneof'], 'shared': False, 'p_nest': 0.75, 'max_nest': 3,
               'public_deciders': True, 'p_read_decider': 0.1, 'unknown_label': True, 'force_small': True,
               'p_construct_small': 0.7, 'p_shared_prefix': 0.2},
+    'mix_shared': {'name': 'mix_shared', 'constructs': ['switch', 'oneof'], 'shared': True, 'p_nest': 0.25, 'max_nest': 2,
+                   'public_deciders': True, 'p_read_decider': 0.15, 'unknown_label': True},
     'switch_oneof': {'name': 'switch_oneof', 'constructs': ['switch', 'oneof'], 'shared': False, 'p_nest': 0.3,
                      'max_nest': 2, 'public_deciders': True, 'p_read_decider': 0.2, 'unknown_label': True},
 }
